@@ -408,7 +408,7 @@ func (i InfixExpression) PrettyPrint(out *PrintState) *PrintState {
 	if i.Right != nil { // the open slice a[1:] has no right operand and is written as it is read
 		// (the same associative operator is regrouped to the left without parentheses: 1 + (2 + 3) prints 1 + 2 + 3)
 		r, isInfix := i.Right.(*InfixExpression)
-		out.rightOperand = isInfix && !(r.Type() == i.Type() && associative[i.Type()])
+		out.rightOperand = isInfix && !(r.Type() == i.Type() && associative[i.Type()] && leftSpineSameOperator(r))
 		i.Right.PrettyPrint(out)
 		out.rightOperand = false
 	}
@@ -417,6 +417,22 @@ func (i InfixExpression) PrettyPrint(out *PrintState) *PrintState {
 	}
 	out.ExpressionPrecedence = oldPrecedence
 	return out
+}
+
+// leftSpineSameOperator tells whether every infix expression of r's precedence level on r's left spine is r's own
+// operator: only then is a op (r) without the parentheses a mere regrouping. a ^ ((b - c) ^ d) keeps them:
+// a ^ b - c ^ d would be ((a ^ b) - c) ^ d.
+func leftSpineSameOperator(r *InfixExpression) bool {
+	for n := r; ; {
+		l, ok := n.Left.(*InfixExpression)
+		if !ok || Precedences[l.Type()] != Precedences[r.Type()] {
+			return true
+		}
+		if l.Type() != r.Type() {
+			return false
+		}
+		n = l
+	}
 }
 
 var associative = map[token.Type]bool{
